@@ -1,0 +1,13 @@
+//go:build verif
+
+package soyhtml
+
+// Verification hook (build tag "verif"): VerifUnboundLookup, when set, is
+// called with the name of every variable lookup that no scope frame binds.
+var VerifUnboundLookup func(key string)
+
+func verifUnboundLookup(key string) {
+	if VerifUnboundLookup != nil {
+		VerifUnboundLookup(key)
+	}
+}
